@@ -1,8 +1,9 @@
 #!/bin/bash
 # tools/trymutant.sh <patch.diff> <Cxx> [more checks...] : apply a seeded change to /repo, run the checks, undo it.
 P=$1; shift
-git -C /repo apply "$P" || { echo "patch does not apply"; exit 3; }
+if [ -n "$(git -C /repo status --porcelain)" ]; then echo "/repo not clean"; exit 3; fi
+git -C /repo apply "$P" 2>/dev/null || git -C /repo apply --3way "$P" 2>/dev/null || { echo "patch does not apply"; git -C /repo reset -q --hard; exit 3; }
 for c in "$@"; do
-  /verif/check $c 2>&1 | grep -E "VIOLATION|KNOWN-FINDING|INFRA|seed=" | cut -c1-260 | head -${MAXL:-8}
+  /verif/check $c 2>&1 | grep -E "VIOLATION|KNOWN-FINDING|INFRA|seed=" | cut -c1-${CUT:-200} | head -${MAXL:-8}
 done
-git -C /repo checkout -- . && git -C /repo status --short
+git -C /repo reset -q --hard && git -C /repo status --short
